@@ -237,6 +237,7 @@ func (e *Engine) acquire(st *State, class string, ref string, fx *FnExec) {
 	na := e.c.fresh("alloc", SInt)
 	st.heap[e.keyAlloc()] = na
 	e.assume(st, "(>= "+na+" "+allocBefore+")")
+	e.assumeTrackedWF(st)
 	// assume the lock invariant
 	for _, li := range e.w.spec.LockInvs[class] {
 		g := e.evalClauseOn(li.Clause, st, nil, ref, fx)
@@ -244,8 +245,8 @@ func (e *Engine) acquire(st *State, class string, ref string, fx *FnExec) {
 	}
 	snap := st.clone()
 	e.lockOld[class] = snap
-	if fx != nil && fx.isTop && fx.acqState == nil {
-		fx.acqState = snap
+	if st.acq == nil {
+		st.acq = snap
 	}
 }
 
@@ -354,6 +355,9 @@ func (fx *FnExec) checkAccess(st *State, loc *Loc, write bool, pos token.Pos) {
 		}
 		e.addObl("race", "guard:"+name, tags, st, goal, pos)
 	case "atomic":
+		if fresh {
+			return
+		}
 		o := e.addObl("race", "atomic:"+name, tags, st, "false", pos)
 		if o != nil {
 			o.Static = "plain access to a field declared atomic"
@@ -1297,3 +1301,29 @@ func (fx *FnExec) atomicAccess(st *State, loc *Loc, pos token.Pos) {
 }
 
 func (fx *FnExec) noteDelta(st *State, loc *Loc, d string) {}
+
+// assumeTrackedWF: well-formedness of the allocation sets of tracked types: allocated objects have references in (0, alloc].
+func (e *Engine) assumeTrackedWF(st *State) {
+	var names []string
+	for k := range e.w.spec.Tracked {
+		names = append(names, k)
+	}
+	sort.Strings(names)
+	for _, full := range names {
+		i := strings.LastIndex(full, ".")
+		tp := e.w.typesPkg(full[:i])
+		if tp == nil {
+			continue
+		}
+		obj := tp.Scope().Lookup(full[i+1:])
+		if obj == nil {
+			continue
+		}
+		k := e.keyIsA(obj.Type())
+		if k == "" {
+			continue
+		}
+		a := e.heapGet(st, k)
+		e.assume(st, fmt.Sprintf("(forall ((r!q Int)) (! (=> (select %s r!q) (and (< 0 r!q) (<= r!q %s))) :pattern ((select %s r!q))))", a, e.heapGet(st, e.keyAlloc()), a))
+	}
+}
